@@ -27,7 +27,8 @@ func init() {
 			"R9 range dispatch (as C01.R6); R10 post-success refusals: after the backend accepted a call a handler refuses the request on its own only under the reviewed comparisons (blob range: start > Size, end < start). " +
 			"R4b the media type handed to PushManifest is the Content-Type header as sent (or the default). " +
 			"R5b ocidebug.New wraps exactly the registry it was given; R11 (shared with C07.R4) the %w discipline of the wire path. " +
-			"R12 the client verifies a body under the algorithm of the descriptor's digest (digest.NewDigest(D.Algorithm(), h) compared with D), never a fixed one.",
+			"R12 the client verifies a body under the algorithm of the descriptor's digest (digest.NewDigest(D.Algorithm(), h) compared with D), never a fixed one. " +
+			"R13 the router separates the repository name from the path with suffix / last-occurrence operations only (a name may contain /blobs/uploads, /manifests/, … as path elements).",
 		NotDecided: "equality of bytes/descriptors on values, URL escaping of unusual names, behaviour under server options, and the Construct->Parse round trip on values are not decided.",
 		Technique:  "static analysis: extraction of request literals and dispatch table from SSA, comparison with reviewed tables, argument provenance, header-name set agreement",
 	})
@@ -106,6 +107,7 @@ func runC03(c *core.Ctx) {
 	// an error of the registry behind keeps its identity through the server and the client (%w discipline, shared with C07.R4)
 	relabel(c, "C03.R11", func() { c07WrapDiscipline(c) })
 	digestComparedUnderItsOwnAlgorithm(c, "C03.R12", "ociclient")
+	routerSplitsAtTheLastKeyword(c, "C03.R13")
 }
 
 // describe a value stored into a Request field in terms of method fn's parameters.
